@@ -102,7 +102,7 @@ def valid_kwargs(cname, depth=0):
         return dict(_VALID[cname])
     C = c10.classes()
     cls, kw = C[cname], {}
-    for (n, dt, cont, opt) in sorted(c10.real_members(cls)):
+    for (n, dt, cont, opt) in sorted(c10.ref_members(cls)):
         if opt or n == "__ANY__":
             continue
         if dt in C:
@@ -123,7 +123,7 @@ def keyword_sets(rng, cname):
     """-> list of (kind, kwargs)"""
     C = c10.classes()
     cls = C[cname]
-    ms = sorted(c10.real_members(cls))
+    ms = sorted(c10.ref_members(cls))
     names = [m[0] for m in ms]
     base = valid_kwargs(cname)
     out = [("valid", dict(base))]
@@ -232,7 +232,7 @@ def measure(cname, kw):
 def member_fields(o, ids):
     if o is None:
         return []
-    return [[m[0], c10.ser_val(vars(o)[m[0]], ids)] for m in c10.real_members(type(o)) if m[0] in vars(o)]
+    return [[m[0], c10.ser_val(vars(o)[m[0]], ids)] for m in c10.ref_members(type(o)) if m[0] in vars(o)]
 
 
 def classify(e):
@@ -283,7 +283,7 @@ def factory_case(ctx, case):
     import neuroml
     cname, kw = case["cls"], case["_kw"]
     C = c10.classes()
-    names = [m[0] for m in c10.real_members(C[cname])]
+    names = [m[0] for m in c10.ref_members(C[cname])]
     cf, cv, odd, plain = measure(cname, kw)
     ids = c10.Ids()
     line = {"op": "factory", "en": case["en"], "cls": cname, "form": case["form"], "kw": kw_json(kw, ids),
@@ -390,7 +390,7 @@ def pairs():
     C = c10.classes()
     out = []
     for p, pc in C.items():
-        ms = c10.real_members(pc)
+        ms = c10.ref_members(pc)
         for m in ms:
             if m[1] in C:
                 out.append((p, m[1], m[0], m[2], len([x for x in ms if x[1] == m[1]])))
@@ -421,7 +421,7 @@ def run_addtype(ctx, scripts, stream="addtype"):
             parent = C[s["parent"]](**{k: v for k, v in (valid_kwargs(s["parent"]) if s["parent_valid_kw"] else {}).items()
                                       if not isinstance(v, list)})
         line = {"op": "addtype", "parent": c10.ser_obj(parent, ids), "calls": []}
-        names_p = c10.real_members(type(parent))
+        names_p = c10.ref_members(type(parent))
         recs = []
         saved = c10.get_switch()
         next_oid = 5000
@@ -429,7 +429,7 @@ def run_addtype(ctx, scripts, stream="addtype"):
             kw = call["_kw"]
             cname = call["cls"]
             cf, cv, odd, plain = measure(cname, kw)
-            child_names = [m[0] for m in c10.real_members(C[cname])]
+            child_names = [m[0] for m in c10.ref_members(C[cname])]
             before = c10.snapshot(parent, ids)
             ret, exc, tags = None, None, []
             import warnings
@@ -495,8 +495,10 @@ def run_addtype(ctx, scripts, stream="addtype"):
                         fail("C09:invalid-returned:add", "validation on, yet the component returned by add() fails validate()")
                     if pv is not True:
                         fail("C09:invalid-parent:add", "validation on, add() returned, yet the parent fails validate()")
-            elif not isinstance(exc, ValueError) and not tag.startswith("err:add:"):
+            elif not isinstance(exc, ValueError) and not tag.startswith("err:add:"):  # noqa
                 fail("C09:non-valueerror", "add(<type>) raised %s" % tag)
+            elif tag.startswith("err:add:"):
+                pass            # placement errors of add() are property C10's business
             elif not gate and not bad_keys and cf is False and isinstance(exc, ValueError):
                 fail("C09:raised-although-off:add", "validation off, yet add(<type>) raised %s" % tag)
             recs.append((pub, rec, odd))
@@ -597,7 +599,7 @@ def run_sessions(ctx, sessions, stream="session"):
                     if exc is None and gate and c10.validity(ret) is not True:
                         ctx.fail("C09:invalid-returned:session", "the last toggle was enable and validate=True, yet an invalid %s came back"
                                  % d["cls"], {"session": _pub_session(s), "at": pub})
-                    if exc is not None and not gate and cf is False and all(k in [m[0] for m in c10.real_members(c10.classes()[d["cls"]])] for k in d["_kw"]):
+                    if exc is not None and not gate and cf is False and all(k in [m[0] for m in c10.ref_members(c10.classes()[d["cls"]])] for k in d["_kw"]):
                         ctx.fail("C09:raised-although-off:session", "the last toggle was disable (or validate=False), yet the call raised %s" % tag,
                                  {"session": _pub_session(s), "at": pub})
                 if neuroml.get_build_time_validation() != expect:
